@@ -4,7 +4,10 @@ package replication
 
 import (
 	"context"
+	"fmt"
+	"io"
 	"net/http"
+	"strings"
 	"time"
 )
 
@@ -91,4 +94,55 @@ func oracleC19Search(present []bool, minPresent bool, tIdx int, half bool) {
 	if got != nil {
 		vAssert(got.SeqNum == want)
 	}
+}
+
+type c19RT struct {
+	body string
+	path string
+	n    int
+}
+
+func (rt *c19RT) RoundTrip(r *http.Request) (*http.Response, error) {
+	rt.n++
+	rt.path = r.URL.Path
+	return &http.Response{StatusCode: 200, Body: io.NopCloser(strings.NewReader(rt.body)), Header: http.Header{}, Request: r}, nil
+}
+
+// C19: "State files and sequence-numbered URLs are read and formed exactly as
+// the planet server lays them out (three-level zero-padded paths, ..., the
+// changeset state's off-by-one sequence)": the state of changeset file n is
+// state n whether the file's content says n (early files) or n-1 (since
+// 2008004); the current state is one more than state.yaml says.
+//
+//@ func oracleC19ChangesetState
+//@   props C19
+//@   oracle
+//@   covers fetchChangesetState
+func oracleC19ChangesetState(nSel int, early bool, current bool) {
+	if nSel < 0 {
+		nSel = -(nSel + 1)
+	}
+	n := uint64(nSel%3000000 + 1)
+	inFile := n - 1
+	if early {
+		inFile = n
+	}
+	rt := &c19RT{body: fmt.Sprintf("---\nlast_run: 2016-09-07 10:45:01.000000000 +00:00\nsequence: %d\n", inFile)}
+	ds := &Datasource{BaseURL: "http://example.test", Client: &http.Client{Transport: rt}}
+	if current {
+		sn, s, err := ds.CurrentChangesetState(context.Background())
+		vAssert(err == nil && s != nil && rt.n == 1)
+		if s != nil {
+			vAssert(s.SeqNum == inFile+1 && uint64(sn) == inFile+1)
+		}
+		vAssert(strings.HasSuffix(rt.path, "/replication/changesets/state.yaml"))
+		return
+	}
+	s, err := ds.ChangesetState(context.Background(), ChangesetSeqNum(n))
+	vAssert(err == nil && s != nil && rt.n == 1)
+	if s != nil {
+		vAssert(s.SeqNum == n)
+	}
+	want := fmt.Sprintf("/replication/changesets/%03d/%03d/%03d.state.txt", n/1000000, (n/1000)%1000, n%1000)
+	vAssert(rt.path == want)
 }
